@@ -200,7 +200,7 @@ def serde_schemas():
             if l.startswith("//"):
                 continue
             if l.startswith("#["):
-                pending.update(serde_attr(l, {"rename", "default"}))
+                pending.update(serde_attr(l, {"rename", "default", "skip_serializing_if", "skip_serializing"}))
                 continue
             if kind == "struct":
                 mm = re.fullmatch(r"(?:pub(?:\([a-z]+\))? )?([a-z_][a-z0-9_]*): (.+),", l)
@@ -209,7 +209,17 @@ def serde_schemas():
                 if "default" in pending and pending["default"] is not None:
                     raise TranslatorError(f"serde: default = \"fn\" is not supported ({name}.{mm.group(1)})")
                 ser_name = pending["rename"] if pending.get("rename") is not None else mm.group(1)
-                items.append(f"Field {coq_str(unescape_rust(ser_name))} {'true' if 'default' in pending else 'false'} {serde_type(mm.group(2), known)}")
+                skip = "SkNever"
+                if "skip_serializing" in pending:
+                    skip = "SkAlways"
+                elif "skip_serializing_if" in pending:
+                    pred = pending["skip_serializing_if"]
+                    skips = {"Option::is_none": "SkIfNone", "Option::is_some": "SkIfSome", "Vec::is_empty": "SkIfEmpty",
+                             "String::is_empty": "SkIfEmpty", "LinkedHashSet::is_empty": "SkIfEmpty"}
+                    if pred not in skips:
+                        raise TranslatorError(f"serde: unsupported skip_serializing_if predicate {pred!r} ({name}.{mm.group(1)})")
+                    skip = skips[pred]
+                items.append(f"Field {coq_str(unescape_rust(ser_name))} {'true' if 'default' in pending else 'false'} {skip} {serde_type(mm.group(2), known)}")
             else:
                 if "untagged" in container:
                     mm = re.fullmatch(r"([A-Za-z0-9_]+)\(([A-Za-z0-9_]+)\),", l)
@@ -218,7 +228,7 @@ def serde_schemas():
                     items.append(serde_type(mm.group(2), known))
                 else:
                     mm = re.fullmatch(r"([A-Za-z0-9_]+),", l)
-                    if not mm or "default" in pending:
+                    if not mm or "default" in pending or "skip_serializing_if" in pending or "skip_serializing" in pending:
                         raise TranslatorError(f"serde: unexpected variant in enum {name}: {l!r}")
                     ser_name = pending["rename"] if pending.get("rename") is not None else mm.group(1)
                     items.append(coq_str(unescape_rust(ser_name)))
